@@ -480,4 +480,16 @@ def plyReadAll (ft : FloatText) (bs : Bytes) : Except PErr (Header × ReadAll) :
   | .error e => .error e
   | .ok (h, rest) => .ok (h, readElems ft h.format 0 h.elements rest)
 
+/-- Allocation ledger of `NewPLYReader` + `Read` until EOF (repaired code): two `bufio` buffers, the
+header bytes (accumulated byte by byte, amortised 2×), the list pre-allocations of the rows that
+decoded, and at most one bounded pre-allocation inside a row that then failed. -/
+def plyLedger (ft : FloatText) (bs : Bytes) : Nat :=
+  8192 + 2 * bs.length + 16 * plyMaxPrealloc +
+    (match plyOpen bs with
+     | .ok (h, rest) => (readElems ft h.format 0 h.elements rest).alloc
+     | .error _ => 0)
+
+/-- the list pre-allocation **before** the repair: `make([]PLYValue, n)` for the declared `n` -/
+def listAllocUnrepaired (declared : Nat) : Nat := 16 * declared
+
 end M3d.Codec
